@@ -5,45 +5,57 @@ import Proofs.RunLemmas
 
 `PRel R p p'`: the interaction trees `p` and `p'` make the same write calls, fail, panic or leave
 the model in the same way, and return `R`-related results whatever the writer answers.
-`MRel R m m'` lifts this to the render monad: from related states (`SRel`: related variables, the
+`MRel t d R m m'` lifts this to the render monad: from related states (`SRel`: related variables, the
 same trim-writer state) to related results and related states.
 -/
 
-inductive PRel {α : Type} (R : α → α → Prop) : Prog α → Prog α → Prop where
-  | ret {a a' : α} : R a a' → PRel R (.ret a) (.ret a')
-  | fail (e : RawErr) : PRel R (.fail e) (.fail e)
-  | panic (w : String) : PRel R (.panic w) (.panic w)
-  | unmodelled (w : String) : PRel R (.unmodelled w) (.unmodelled w)
-  | call (b : Bytes) {k k' : WriteRes → Prog α} : (∀ r, PRel R (k r) (k' r)) → PRel R (.call b k) (.call b k')
+/-- `t`: tolerate `unmodelled` — a run that leaves the model is related to every run (the model
+    makes no claim about it); with `t = false` both runs must leave the model at the same point -/
+inductive PRel (t : Bool) {α : Type} (R : α → α → Prop) : Prog α → Prog α → Prop where
+  | ret {a a' : α} : R a a' → PRel t R (.ret a) (.ret a')
+  | fail (e : RawErr) : PRel t R (.fail e) (.fail e)
+  | panic (w : String) : PRel t R (.panic w) (.panic w)
+  | unmodelled (w : String) : PRel t R (.unmodelled w) (.unmodelled w)
+  | call (b : Bytes) {k k' : WriteRes → Prog α} : (∀ r, PRel t R (k r) (k' r)) → PRel t R (.call b k) (.call b k')
+  | unmL (ht : t = true) (w : String) (p' : Prog α) : PRel t R (.unmodelled w) p'
+  | unmR (ht : t = true) (p : Prog α) (w : String) : PRel t R p (.unmodelled w)
+
+variable {t : Bool}
 
 theorem PRel.bind {α β} {R : α → α → Prop} {S : β → β → Prop} {p p' : Prog α} {f f' : α → Prog β}
-    (hp : PRel R p p') (hf : ∀ a a', R a a' → PRel S (f a) (f' a')) : PRel S (p.bind f) (p'.bind f') := by
+    (hp : PRel t R p p') (hf : ∀ a a', R a a' → PRel t S (f a) (f' a')) : PRel t S (p.bind f) (p'.bind f') := by
   induction hp with
   | ret h => exact hf _ _ h
   | fail e => exact .fail e
   | panic w => exact .panic w
   | unmodelled w => exact .unmodelled w
   | call b _ ih => exact .call b (fun r => ih r)
+  | unmL ht w p' => exact .unmL ht w _
+  | unmR ht p w => exact .unmR ht _ w
 
-theorem PRel.mapFail {α} {R : α → α → Prop} {p p' : Prog α} (g : RawErr → RawErr) (hp : PRel R p p') :
-    PRel R (p.mapFail g) (p'.mapFail g) := by
+theorem PRel.mapFail {α} {R : α → α → Prop} {p p' : Prog α} (g : RawErr → RawErr) (hp : PRel t R p p') :
+    PRel t R (p.mapFail g) (p'.mapFail g) := by
   induction hp with
   | ret h => exact .ret h
   | fail e => exact .fail _
   | panic w => exact .panic w
   | unmodelled w => exact .unmodelled w
   | call b _ ih => exact .call b (fun r => ih r)
+  | unmL ht w p' => exact .unmL ht w _
+  | unmR ht p w => exact .unmR ht _ w
 
-theorem PRel.mono {α} {R S : α → α → Prop} {p p' : Prog α} (hp : PRel R p p') (h : ∀ a a', R a a' → S a a') :
-    PRel S p p' := by
+theorem PRel.mono {α} {R S : α → α → Prop} {p p' : Prog α} (hp : PRel t R p p') (h : ∀ a a', R a a' → S a a') :
+    PRel t S p p' := by
   induction hp with
   | ret hr => exact .ret (h _ _ hr)
   | fail e => exact .fail e
   | panic w => exact .panic w
   | unmodelled w => exact .unmodelled w
   | call b _ ih => exact .call b (fun r => ih r)
+  | unmL ht w p' => exact .unmL ht w _
+  | unmR ht p w => exact .unmR ht _ w
 
-theorem PRel.refl {α} {R : α → α → Prop} (hR : ∀ a, R a a) (p : Prog α) : PRel R p p := by
+theorem PRel.refl {α} {R : α → α → Prop} (hR : ∀ a, R a a) (p : Prog α) : PRel t R p p := by
   induction p with
   | ret a => exact .ret (hR a)
   | fail e => exact .fail e
@@ -52,115 +64,161 @@ theorem PRel.refl {α} {R : α → α → Prop} (hR : ∀ a, R a a) (p : Prog α
   | call b k ih => exact .call b ih
 
 /-- outcomes of a run on a fault-free writer -/
-def ORel {α} (R : α → α → Prop) : Prog.Outcome α → Prog.Outcome α → Prop
+def ORel (t : Bool) {α} (R : α → α → Prop) : Prog.Outcome α → Prog.Outcome α → Prop
   | .ok a, .ok a' => R a a'
   | .err e, .err e' => e = e'
   | .panic w, .panic w' => w = w'
-  | .unmodelled w, .unmodelled w' => w = w'
+  | .unmodelled w, .unmodelled w' => t = true ∨ w = w'
+  | .unmodelled _, _ => t = true
+  | _, .unmodelled _ => t = true
   | _, _ => False
 
-theorem PRel.runPure {α} {R : α → α → Prop} {p p' : Prog α} (hp : PRel R p p') :
-    p.runPure.1 = p'.runPure.1 ∧ ORel R p.runPure.2 p'.runPure.2 := by
+/-- related runs end in related outcomes, and when both succeed they have written the same text -/
+theorem PRel.runPure {α} {R : α → α → Prop} {p p' : Prog α} (hp : PRel t R p p') :
+    ORel t R p.runPure.2 p'.runPure.2 ∧
+      (∀ a a', p.runPure.2 = .ok a → p'.runPure.2 = .ok a' → p.runPure.1 = p'.runPure.1) := by
   induction hp with
-  | ret h => exact ⟨rfl, h⟩
-  | fail e => exact ⟨rfl, rfl⟩
-  | panic w => exact ⟨rfl, rfl⟩
-  | unmodelled w => exact ⟨rfl, rfl⟩
+  | ret h => exact ⟨h, fun _ _ _ _ => rfl⟩
+  | fail e => exact ⟨rfl, fun _ _ _ _ => rfl⟩
+  | panic w => exact ⟨rfl, fun _ _ _ _ => rfl⟩
+  | unmodelled w => exact ⟨.inr rfl, fun _ _ _ _ => rfl⟩
   | call b _ ih =>
     simp only [Prog.runPure]
-    exact ⟨by rw [(ih .ok).1], (ih .ok).2⟩
+    exact ⟨(ih .ok).1, fun a a' h1 h2 => by rw [(ih .ok).2 a a' h1 h2]⟩
+  | unmL ht w p' =>
+    refine ⟨?_, fun a a' h1 _ => by simp [Prog.runPure] at h1⟩
+    simp only [Prog.runPure]
+    cases p'.runPure.2 <;> simp [ORel, ht]
+  | unmR ht p w =>
+    refine ⟨?_, fun a a' _ h2 => by simp [Prog.runPure] at h2⟩
+    simp only [Prog.runPure]
+    cases p.runPure.2 <;> simp [ORel, ht]
 
 /-- results of the value layer -/
-def RRel {α} (R : α → α → Prop) : Res Cause α → Res Cause α → Prop
+def RRel (t : Bool) {α} (R : α → α → Prop) : Res Cause α → Res Cause α → Prop
   | .ok a, .ok a' => R a a'
   | .err e, .err e' => e = e'
   | .panic w, .panic w' => w = w'
-  | .unmodelled w, .unmodelled w' => w = w'
+  | .unmodelled w, .unmodelled w' => t = true ∨ w = w'
+  | .unmodelled _, _ => t = true
+  | _, .unmodelled _ => t = true
   | _, _ => False
 
-theorem RRel.of_eq {α} {R : α → α → Prop} (hR : ∀ a, R a a) {r r' : Res Cause α} (h : r = r') : RRel R r r' := by
+theorem RRel.of_eq {α} {R : α → α → Prop} (hR : ∀ a, R a a) {r r' : Res Cause α} (h : r = r') : RRel t R r r' := by
   subst h; cases r <;> simp [RRel, hR]
 
-theorem RRel.bind {α β} {R : α → α → Prop} {S : β → β → Prop} {r r' : Res Cause α} {f f' : α → Res Cause β}
-    (hr : RRel R r r') (hf : ∀ a a', R a a' → RRel S (f a) (f' a')) : RRel S (r.bind f) (r'.bind f') := by
-  cases r <;> cases r' <;> simp_all [RRel, Res.bind]
+theorem RRel.unmR {α} {R : α → α → Prop} (ht : t = true) (r : Res Cause α) (w : String) : RRel t R r (.unmodelled w) := by
+  cases r <;> simp [RRel, ht]
 
-theorem RRel.eq {α} {r r' : Res Cause α} (h : RRel Eq r r') : r = r' := by
+theorem RRel.unmL {α} {R : α → α → Prop} (ht : t = true) (w : String) (r : Res Cause α) : RRel t R (.unmodelled w) r := by
+  cases r <;> simp [RRel, ht]
+
+theorem RRel.bind {α β} {R : α → α → Prop} {S : β → β → Prop} {r r' : Res Cause α} {f f' : α → Res Cause β}
+    (hr : RRel t R r r') (hf : ∀ a a', R a a' → RRel t S (f a) (f' a')) : RRel t S (r.bind f) (r'.bind f') := by
+  cases r <;> cases r' <;> simp only [RRel] at hr <;> simp only [Res.bind] <;> first
+    | exact hf _ _ hr
+    | exact RRel.unmR hr _ _
+    | exact RRel.unmL hr _ _
+    | (simp only [RRel]; exact hr)
+
+theorem RRel.eq {α} {r r' : Res Cause α} (h : RRel false Eq r r') : r = r' := by
+  cases r <;> cases r' <;> simp_all [RRel]
+
+/-- strict relatedness implies the tolerant one -/
+theorem RRel.weaken {α} {R : α → α → Prop} {r r' : Res Cause α} (h : RRel false R r r') : RRel t R r r' := by
   cases r <;> cases r' <;> simp_all [RRel]
 
 /-! ## Variables and states -/
 
-def EnvRel (env env' : Env) : Prop := ∀ x, ERel (env.get x) (env'.get x)
+variable {d : Bool}
 
-theorem EnvRel.refl (env : Env) : EnvRel env env := fun _ => ERel.refl _
+def EnvRel (d : Bool) (env env' : Env) : Prop := ∀ x, ERel d (env.get x) (env'.get x)
+
+theorem EnvRel.refl (env : Env) : EnvRel d env env := fun _ => ERel.refl _
 
 theorem Env.get_set (env : Env) (x y : Bytes) (v : GoVal) : (env.set x v).get y = if y = x then v else env.get y := by
   split
   · next h => subst h; exact Env.get_set_same env y v
   · next h => exact Env.get_set_other env x y v h
 
-theorem EnvRel.set {env env' : Env} (h : EnvRel env env') (x : Bytes) {v v' : GoVal} (hv : ERel v v') :
-    EnvRel (env.set x v) (env'.set x v') := by
+theorem EnvRel.set {env env' : Env} (h : EnvRel d env env') (x : Bytes) {v v' : GoVal} (hv : ERel d v v') :
+    EnvRel d (env.set x v) (env'.set x v') := by
   intro y
   rw [Env.get_set, Env.get_set]
   split
   · exact hv
   · exact h y
 
-structure SRel (s s' : RS) : Prop where
-  env : EnvRel s.env s'.env
+structure SRel (d : Bool) (s s' : RS) : Prop where
+  env : EnvRel d s.env s'.env
   tw : s.tw = s'.tw
 
-def MRel {α} (R : α → α → Prop) (m m' : M α) : Prop :=
-  ∀ s s', SRel s s' → PRel (fun r r' : α × RS => R r.1 r'.1 ∧ SRel r.2 r'.2) (m s) (m' s')
+def MRel (t d : Bool) {α} (R : α → α → Prop) (m m' : M α) : Prop :=
+  ∀ s s', SRel d s s' → PRel t (fun r r' : α × RS => R r.1 r'.1 ∧ SRel d r.2 r'.2) (m s) (m' s')
 
-theorem MRel.mono_rel {α} {R S : α → α → Prop} {m m' : M α} (h : MRel R m m') (hRS : ∀ a a', R a a' → S a a') :
-    MRel S m m' :=
+theorem MRel.mono_rel {α} {R S : α → α → Prop} {m m' : M α} (h : MRel t d R m m') (hRS : ∀ a a', R a a' → S a a') :
+    MRel t d S m m' :=
   fun s s' hs => (h s s' hs).mono (fun _ _ hr => ⟨hRS _ _ hr.1, hr.2⟩)
 
 theorem mrel_bind {α β} {R : α → α → Prop} {S : β → β → Prop} {m m' : M α} {f f' : α → M β}
-    (hm : MRel R m m') (hf : ∀ a a', R a a' → MRel S (f a) (f' a')) : MRel S (m >>= f) (m' >>= f') := by
+    (hm : MRel t d R m m') (hf : ∀ a a', R a a' → MRel t d S (f a) (f' a')) : MRel t d S (m >>= f) (m' >>= f') := by
   intro s s' hs
   exact PRel.bind (hm s s' hs) (fun ⟨a, s1⟩ ⟨a', s1'⟩ h => hf a a' h.1 s1 s1' h.2)
 
-theorem mrel_pure {α} {R : α → α → Prop} {a a' : α} (h : R a a') : MRel R (pure a : M α) (pure a') :=
+theorem mrel_pure {α} {R : α → α → Prop} {a a' : α} (h : R a a') : MRel t d R (pure a : M α) (pure a') :=
   fun _ _ hs => .ret ⟨h, hs⟩
 
-theorem mrel_fail {α} {R : α → α → Prop} (e : RawErr) : MRel R (M.fail e : M α) (M.fail e) := fun _ _ _ => .fail e
+theorem mrel_fail {α} {R : α → α → Prop} (e : RawErr) : MRel t d R (M.fail e : M α) (M.fail e) := fun _ _ _ => .fail e
 
-theorem mrel_getEnv : MRel EnvRel M.getEnv M.getEnv := fun _ _ hs => .ret ⟨hs.env, hs⟩
+theorem mrel_getEnv : MRel t d (EnvRel d) M.getEnv M.getEnv := fun _ _ hs => .ret ⟨hs.env, hs⟩
 
-theorem mrel_getVar (x : Bytes) : MRel ERel (M.getVar x) (M.getVar x) := fun _ _ hs => .ret ⟨hs.env x, hs⟩
+theorem mrel_getVar (x : Bytes) : MRel t d (ERel d) (M.getVar x) (M.getVar x) := fun _ _ hs => .ret ⟨hs.env x, hs⟩
 
-theorem mrel_setVar (x : Bytes) {v v' : GoVal} (h : ERel v v') : MRel (fun _ _ => True) (M.setVar x v) (M.setVar x v') :=
+theorem mrel_setVar (x : Bytes) {v v' : GoVal} (h : ERel d v v') :
+    MRel t d (fun _ _ => True) (M.setVar x v) (M.setVar x v') :=
   fun _ _ hs => .ret ⟨trivial, ⟨hs.env.set x h, hs.tw⟩⟩
 
-theorem mrel_ofRes {α} {R : α → α → Prop} {r r' : Res Cause α} (h : RRel R r r') : MRel R (M.ofRes r) (M.ofRes r') := by
+theorem mrel_ofRes {α} {R : α → α → Prop} {r r' : Res Cause α} (h : RRel t R r r') :
+    MRel t d R (M.ofRes r) (M.ofRes r') := by
   intro s s' hs
-  cases r <;> cases r' <;> simp only [RRel] at h
-  · exact .ret ⟨h, hs⟩
-  · subst h; exact .fail _
-  · subst h; exact .panic _
-  · subst h; exact .unmodelled _
+  cases r <;> cases r' <;> simp only [RRel] at h <;> first
+    | exact .ret ⟨h, hs⟩
+    | (subst h; first | exact .fail _ | exact .panic _)
+    | exact .unmL h _ _
+    | exact .unmR h _ _
+    | (rcases h with h | h
+       · exact .unmL h _ _
+       · subst h; exact .unmodelled _)
 
-theorem mrel_mapFail {α} {R : α → α → Prop} {m m' : M α} (g : RawErr → RawErr) (hm : MRel R m m') :
-    MRel R (M.mapFail g m) (M.mapFail g m') := fun s s' hs => PRel.mapFail g (hm s s' hs)
+theorem mrel_mapFail {α} {R : α → α → Prop} {m m' : M α} (g : RawErr → RawErr) (hm : MRel t d R m m') :
+    MRel t d R (M.mapFail g m) (M.mapFail g m') := fun s s' hs => PRel.mapFail g (hm s s' hs)
 
-theorem mrel_wrapFailAt {α} {R : α → α → Prop} (path : Bytes) (loc : Loc) {m m' : M α} (hm : MRel R m m') :
-    MRel R (wrapFailAt path loc m) (wrapFailAt path loc m') := mrel_mapFail _ hm
+theorem mrel_wrapFailAt {α} {R : α → α → Prop} (path : Bytes) (loc : Loc) {m m' : M α} (hm : MRel t d R m m') :
+    MRel t d R (wrapFailAt path loc m) (wrapFailAt path loc m') := mrel_mapFail _ hm
 
-theorem mrel_wrapAt (path : Bytes) (loc : Loc) {m m' : M Status} (hm : MRel Eq m m') :
-    MRel Eq (wrapAt path loc m) (wrapAt path loc m') := by
+theorem mrel_wrapAt (path : Bytes) (loc : Loc) {m m' : M Status} (hm : MRel t d Eq m m') :
+    MRel t d Eq (wrapAt path loc m) (wrapAt path loc m') := by
   rw [wrapAt_eq, wrapAt_eq]
   exact mrel_bind (mrel_mapFail _ hm) (fun a a' h => by subst h; exact mrel_pure rfl)
 
 /-- an action that neither reads nor changes the variables -/
 def EnvFree {α} (m : M α) : Prop :=
-  ∀ s s' : RS, s.tw = s'.tw → PRel (fun r r' : α × RS => r.1 = r'.1 ∧ r.2.tw = r'.2.tw ∧ r.2.env = s.env ∧ r'.2.env = s'.env) (m s) (m s')
+  ∀ s s' : RS, s.tw = s'.tw →
+    PRel false (fun r r' : α × RS => r.1 = r'.1 ∧ r.2.tw = r'.2.tw ∧ r.2.env = s.env ∧ r'.2.env = s'.env) (m s) (m s')
 
-theorem mrel_of_envFree {α} {m : M α} (h : EnvFree m) : MRel Eq m m := by
+theorem PRel.weaken {α} {R : α → α → Prop} {p p' : Prog α} (h : PRel false R p p') : PRel t R p p' := by
+  induction h with
+  | ret hr => exact .ret hr
+  | fail e => exact .fail e
+  | panic w => exact .panic w
+  | unmodelled w => exact .unmodelled w
+  | call b _ ih => exact .call b (fun r => ih r)
+  | unmL ht => cases ht
+  | unmR ht => cases ht
+
+theorem mrel_of_envFree {α} {m : M α} (h : EnvFree m) : MRel t d Eq m m := by
   intro s s' hs
-  refine (h s s' hs.tw).mono (fun r r' hr => ⟨hr.1, ?_, hr.2.1⟩)
+  refine (h s s' hs.tw).weaken.mono (fun r r' hr => ⟨hr.1, ?_, hr.2.1⟩)
   rw [hr.2.2.1, hr.2.2.2]
   exact hs.env
 
@@ -199,25 +257,25 @@ theorem envFree_trimRight : EnvFree trimRightM := by
   intro s s' h
   exact .ret ⟨rfl, by simp [h], rfl, rfl⟩
 
-theorem mrel_flush : MRel Eq flushM flushM := mrel_of_envFree envFree_flush
-theorem mrel_write (b : Bytes) : MRel Eq (writeM b) (writeM b) := mrel_of_envFree (envFree_write b)
-theorem mrel_trimLeft : MRel Eq trimLeftM trimLeftM := mrel_of_envFree envFree_trimLeft
-theorem mrel_trimRight : MRel Eq trimRightM trimRightM := mrel_of_envFree envFree_trimRight
+theorem mrel_flush : MRel t d Eq flushM flushM := mrel_of_envFree envFree_flush
+theorem mrel_write (b : Bytes) : MRel t d Eq (writeM b) (writeM b) := mrel_of_envFree (envFree_write b)
+theorem mrel_trimLeft : MRel t d Eq trimLeftM trimLeftM := mrel_of_envFree envFree_trimLeft
+theorem mrel_trimRight : MRel t d Eq trimRightM trimRightM := mrel_of_envFree envFree_trimRight
 
-theorem mrel_writeAll : ∀ cs, MRel Eq (writeAllM cs) (writeAllM cs)
+theorem mrel_writeAll : ∀ cs, MRel t d Eq (writeAllM cs) (writeAllM cs)
   | [] => mrel_pure rfl
   | c :: cs => by
     unfold writeAllM
     exact mrel_bind (mrel_write c) (fun _ _ _ => mrel_writeAll cs)
 
-theorem mrel_tablerowBefore (cols i : Nat) : MRel Eq (tablerowBefore cols i) (tablerowBefore cols i) := by
+theorem mrel_tablerowBefore (cols i : Nat) : MRel t d Eq (tablerowBefore cols i) (tablerowBefore cols i) := by
   unfold tablerowBefore
   simp only
   split
   · exact mrel_bind (mrel_write _) (fun _ _ _ => mrel_write _)
   · exact mrel_write _
 
-theorem mrel_tablerowAfter (cols i l : Nat) : MRel Eq (tablerowAfter cols i l) (tablerowAfter cols i l) := by
+theorem mrel_tablerowAfter (cols i l : Nat) : MRel t d Eq (tablerowAfter cols i l) (tablerowAfter cols i l) := by
   unfold tablerowAfter
   refine mrel_bind (mrel_write _) (fun _ _ _ => ?_)
   split
@@ -225,12 +283,12 @@ theorem mrel_tablerowAfter (cols i l : Nat) : MRel Eq (tablerowAfter cols i l) (
   · exact mrel_pure rfl
 
 /-- a capture: the same text, related results and variables -/
-theorem mrel_capture {α} {R : α → α → Prop} {m m' : M α} (hm : MRel R m m') :
-    MRel (fun r r' : α × Bytes => R r.1 r'.1 ∧ r.2 = r'.2) (captureM m) (captureM m') := by
+theorem mrel_capture {α} {R : α → α → Prop} {m m' : M α} (hm : MRel t d R m m') :
+    MRel t d (fun r r' : α × Bytes => R r.1 r'.1 ∧ r.2 = r'.2) (captureM m) (captureM m') := by
   intro s s' hs
   unfold captureM
   simp only
-  have hp : PRel (fun r r' : α × RS => R r.1 r'.1 ∧ SRel r.2 r'.2)
+  have hp : PRel t (fun r r' : α × RS => R r.1 r'.1 ∧ SRel d r.2 r'.2)
       ((m { env := s.env, tw := {} }).bind (fun (a, s1) => (flushM s1).bind (fun (_, s2) => .ret (a, s2))))
       ((m' { env := s'.env, tw := {} }).bind (fun (a, s1) => (flushM s1).bind (fun (_, s2) => .ret (a, s2)))) := by
     refine PRel.bind (hm _ _ ⟨hs.env, rfl⟩) (fun ⟨a, s1⟩ ⟨a', s1'⟩ h => ?_)
@@ -243,13 +301,17 @@ theorem mrel_capture {α} {R : α → α → Prop} {m m' : M α} (hm : MRel R m 
   obtain ⟨out', o'⟩ := q'
   intro hr
   simp only at hr
-  obtain ⟨h1, h2⟩ := hr
-  subst h1
-  cases o <;> cases o' <;> simp only [ORel] at h2
-  · next r r' =>
-    obtain ⟨a, s2⟩ := r
-    obtain ⟨a', s2'⟩ := r'
-    exact .ret ⟨⟨h2.1, rfl⟩, ⟨h2.2.env, hs.tw⟩⟩
-  · subst h2; exact .fail _
-  · subst h2; exact .panic _
-  · subst h2; exact .unmodelled _
+  obtain ⟨h2, h1⟩ := hr
+  cases o <;> cases o' <;> simp only [ORel] at h2 <;> first
+    | (next r r' =>
+        obtain ⟨a, s2⟩ := r
+        obtain ⟨a', s2'⟩ := r'
+        have := h1 _ _ rfl rfl
+        subst this
+        exact .ret ⟨⟨h2.1, rfl⟩, ⟨h2.2.env, hs.tw⟩⟩)
+    | (subst h2; first | exact .fail _ | exact .panic _)
+    | exact .unmL h2 _ _
+    | exact .unmR h2 _ _
+    | (rcases h2 with h2 | h2
+       · exact .unmL h2 _ _
+       · subst h2; exact .unmodelled _)
